@@ -1100,6 +1100,9 @@ func (x *rawRun) peerSendData(off, n int, fin bool) {
 		st := x.cfg.PeerISS + 1 + uint32(off)
 		x.pRecv = append(x.pRecv, [2]uint32{st, st + uint32(n)})
 		x.pLast = [2]uint32{st, st + uint32(n)}
+		if ref.SeqLT(x.pSndNxt, st+uint32(n)) {
+			x.pSndNxt = st + uint32(n) // the peer's later ACKs carry its SND.NXT
+		}
 	} else {
 		x.pLast = [2]uint32{}
 	}
@@ -1177,6 +1180,9 @@ func (x *rawRun) peerSendBatch(segs ...[2]int) {
 		}
 		pl = append(pl, ref.BuildTCP(peerPort, x.sPort, seq, x.rcvNxt, ref.ACK|ref.PSH, uint16(x.cfg.PeerWnd), x.segOpts(nil), x.pData[sg[0]:sg[0]+sg[1]], x.r.pAddr, x.r.sAddr))
 		x.pRecv = append(x.pRecv, [2]uint32{seq, seq + uint32(sg[1])})
+		if ref.SeqLT(x.pSndNxt, seq+uint32(sg[1])) {
+			x.pSndNxt = seq + uint32(sg[1])
+		}
 	}
 	x.pLast = [2]uint32{}
 	x.r.InjectBatch(x.ep, ref.ProtoTCP, pl...)
@@ -1341,6 +1347,14 @@ func (x *rawRun) menu() []action {
 					x.peerSendData(nx[0], nx[1], false)
 				}})
 			}
+			m = append(m, action{name: fmt.Sprintf("a pure ACK the peer sent after [%d,+%d) overtakes it", s[0], s[1]), cost: 1, do: func() {
+				x.pSegs = x.pSegs[1:]
+				if e := x.cfg.PeerISS + 1 + uint32(s[0]+s[1]); ref.SeqLT(x.pSndNxt, e) {
+					x.pSndNxt = e
+				}
+				x.r.SendTCP(peerPort, x.sPort, x.pSndNxt, x.rcvNxt, ref.ACK, uint16(x.cfg.PeerWnd), x.segOpts(nil), nil)
+				x.peerSendData(s[0], s[1], false)
+			}})
 			m = append(m, action{name: fmt.Sprintf("peer sends [%d,+%d) twice", s[0], s[1]), cost: 1, do: func() {
 				x.pSegs = x.pSegs[1:]
 				x.peerSendData(s[0], s[1], false)
